@@ -253,6 +253,11 @@ func (dsc *dataStoreCommand) setRange(keyName string, offset int, substring stri
 		setBytes = []byte{}
 	}
 
+	if offset > 512*1024*1024 || offset+len(substring) > 512*1024*1024 {
+		result.data = respErrorString("ERR string exceeds maximum allowed size (proto-max-bulk-len)")
+		return
+	}
+
 	if len(setBytes) < offset {
 		expanded := make([]byte, offset)
 		copy(expanded, setBytes)
